@@ -10,6 +10,7 @@ pub mod c06;
 pub mod c07;
 pub mod c08;
 pub mod c09;
+pub mod c10;
 pub mod c11;
 pub mod c12;
 
@@ -24,6 +25,7 @@ pub fn dispatch(ctx: &Ctx, replay: Option<&Value>, rest: &[String]) -> i32 {
         "C07" => c07::run(ctx, replay),
         "C08" => c08::run(ctx, replay),
         "C09" => c09::run(ctx, replay),
+        "C10" => c10::run(ctx, replay, rest),
         "C11" => c11::run(ctx, replay),
         // C12 and C13 share one enumeration; the id decides which oracle is reported
         "C12" | "C13" => c12::run(ctx, replay),
